@@ -30,6 +30,7 @@ a violation — never a pass.
 import hashlib, io, json, os, re, subprocess, tarfile, threading, time
 import vlib
 import c12_tools
+import c12_census
 
 LEVEL = "proof"
 MODULE = "Sqfs.Props.C12"
@@ -55,8 +56,16 @@ SMALL_B = [1, 7, 64]
 SMALL_BX = {1: (4, 2), 7: (16, 16), 64: (23, 9)}
 HARNESS_SRC = ["h_c12.c", "h_c12_peek_istream.c", "h_c12_peek_ostream.c", "h_c12_peek_xistream.c", "h_c12_peek_xostream.c",
                "h_c12_peek_tar.c"]
+# every place where the tree calls read/write/pread/pwrite/…/sendfile/copy_file_range (census from the clang AST on every
+# run) and the model function that describes its retry loop; a site that is not listed here has no model
+SYSCALL_SITES = {
+    "lib/sqfs/src/io/file.c:stdio_read_at:pread": "readAtLoop",
+    "lib/sqfs/src/io/file.c:stdio_write_at:pwrite": "writeAtLoop",
+    "lib/sqfs/src/io/ostream.c:write_all:write": "writeAllLoop",
+    "lib/sqfs/src/io/istream.c:precache:read": "precacheLoop",
+}
 FDTYPES = "npsft"        # what the stream descriptors of a harness process are: /dev/null, pipe, socket, regular file, pty
-LONG_BURSTS = [65, 66, 100, 130, 300]   # EINTR runs longer than any plausible retry cap (64, 100, 128, 256)
+LONG_BURSTS = [65, 66, 100, 130, 300, 1500]   # EINTR runs longer than any plausible retry cap (64, 100, 128, 256, 1000, 1024)
 def _const(name, default):
     """value of a generated constant (lean/Sqfs/Generated/Consts.lean is rewritten from the headers on every run)"""
     try:
@@ -465,6 +474,13 @@ def fixed_scenarios(B, small):
              "istream %d s 61620a63 L0,R2 %s" % (B, i200)]
     for b in small:
         lines.append("istream %d n 61620a630a6465 g0,L7,R1,L0 %s,p0,%s" % (b, i200, i200))
+    # one configuration (the build with the real buffer size) with runs of 1500: beyond a cap of 1000 / 1024 as well
+    i1500 = ",".join(["i"] * 1500)
+    lines += ["readat 0102030405 1 3 %s" % i1500,
+              "writeat 0102 1 aabbcc %s,p0,%s" % (i1500, i1500),
+              "ostream n d0102,h5,f %s" % i1500,
+              "ostream s d01,h2000,d02,f p0,%s" % i1500,
+              "istream %d s 61620a63 L0,R2 %s" % (B, i1500)]
     return lines
 
 
@@ -1034,6 +1050,16 @@ def run(ctx):
     if not ok:
         ctx.violation("proof:C12", "proof obligations of C12 no longer check: " + " | ".join(problems)[:1500],
                       {"broken": problems, "theorems_file": "lean/Sqfs/Props/C12.lean"}, found_input=False)
+    # the premise "four read/write call sites, one modelled loop each": checked against the tree, not assumed
+    sites, nsrc, cand = c12_census.census(ctx)
+    unknown, gone = sorted(set(sites) - set(SYSCALL_SITES)), sorted(set(SYSCALL_SITES) - set(sites))
+    ctx.log("census of read/write/pread/pwrite/readv/…/sendfile/copy_file_range/splice call sites: %d C sources, %d mention a name, sites %s" % (
+        nsrc, len(cand), sites))
+    if unknown or gone:
+        raise vlib.CheckFailure("the read/write call sites of the tree are not the ones the C12 model describes: without a model %s; "
+                                "modelled but no longer in the tree %s (census from the clang AST over %d sources)" % (unknown, gone, nsrc))
+    ctx.cov["syscall_sites"] = {s: SYSCALL_SITES[s] for s in sites}
+    ctx.cov["syscall_census_sources"] = nsrc
     hs, B, small, bx = build_harnesses(ctx)
     ctx.log("istream BUFSZ of the working tree = %d; small-buffer variants %s" % (B, small))
     t0 = time.time()
@@ -1111,7 +1137,7 @@ def run(ctx):
         if zst["compressed_set"] < (150 if ctx.quick() else 1500) or zst["drain_reported_error_soft_script"] < (8 if ctx.quick() else 100) \
                 or zst["end_of_archive_after_drain"] < (15 if ctx.quick() else 150):
             lack.append("compressed branch of tar_open_stream / drain with an error: %s" % zst)
-        if lack or len(done) != len(scen) or min(evhist.values()) == 0 or longest < 200 or nspec < 500 or nlines < 50 \
+        if lack or len(done) != len(scen) or min(evhist.values()) == 0 or longest < 1500 or nspec < 500 or nlines < 50 \
                 or nfull < 1000 or len(nontrivial) < len(done) // 2 or (ncorpus == 0 and (vlib.CORPUS / "C12").exists()):
             raise vlib.CheckFailure("in-process part evaluated too little: missing/too few %s; %d of %d scenarios evaluated; events %s; "
                                     "longest EINTR run %d; spec %d; lines %d; full %d; non-trivial %d; corpus %d" % (
@@ -1138,13 +1164,17 @@ def run(ctx):
                               "%s under %s (feed %s, drain %s, %s, shim seed %s): exit/sha256 %s differ from the unperturbed run's %s; stderr: %s" % (
                                   r["scenario"], cfg, r["feed"], r["drain"], "socket" if r["sock"] else "pipe", r["shim_seed"], r["pert"], r["base"], r["stderr"][-300:]),
                               {k: r[k] for k in ("scenario", "config", "feed", "drain", "shim_seed", "seed", "sock", "base", "pert")})
-    ctx.log("tool level: %d perturbed runs (%d with ≥1 short count/EINTR fired), %d differ, %d scenarios skipped, shim fired %s, %.1fs" % (
-        len(tres), sum(1 for r in tres if r["fired"] > 0), tbad, len(tskipped),
+    ctx.log("tool level: %d perturbed runs (%d with ≥1 short count/EINTR fired; %d on damaged inputs: exit status + diagnostics; %d with "
+            "regular-file stdin/stdout), %d differ, %d scenarios skipped, shim fired %s, %.1fs" % (
+        len(tres), sum(1 for r in tres if r["fired"] > 0), sum(1 for r in tres if r["fails"]),
+        sum(1 for r in tres if r["stdio"] and r["feed"] == 0 and r["drain"] == 0), tbad, len(tskipped),
         {op: {k: v for k, v in d.items() if k in ("short", "eintr")} for op, d in tagg.items()}, t_tools))
     ctx.cov.update({
         "tool_runs": len(tres),
         "tool_runs_with_perturbation_fired": sum(1 for r in tres if r["fired"] > 0),
         "tool_runs_differing": tbad,
+        "tool_runs_on_damaged_inputs": sum(1 for r in tres if r["fails"]),
+        "tool_runs_regular_file_stdio_perturbed": sum(1 for r in tres if r["stdio"] and r["feed"] == 0 and r["drain"] == 0 and r["fired"] > 0),
         "tool_scenarios": sorted({r["scenario"] for r in tres}),
         "tool_scenarios_skipped": tskipped,
         "shim_counters": tagg,
@@ -1176,10 +1206,19 @@ def run(ctx):
         "inprocess_scenarios_per_s": round(len(done) / max(t_in, 1e-3), 1),
     })
     return ctx.finish(LEVEL, trusted_extra=[
-        "the OS is modelled as a finite script of per-call outcomes (short count ≥ 1 byte, EINTR, EIO, return 0) followed by calls that complete in full; "
-        "lseek/fsync are not scripted; sizes are unbounded naturals (the harness stays below 2^31)",
-        "modelled: lib/sqfs/src/io/{file.c (POSIX branch), ostream.c, istream.c, unix.c (seek), stream_api.c}, lib/util/src/get_line.c, "
-        "lib/tar/src/record_to_memory.c; stdio inside the tools and libc are exercised only by the tool-level runs"],
+        "the OS is modelled as a finite script of per-call outcomes (short count ≥ 1 byte, EINTR, EIO, return 0) on read / write / pread / pwrite / "
+        "ftruncate, followed by calls that complete in full; lseek, fsync, calloc are not scripted (never fail); sizes are unbounded naturals "
+        "(the harness stays below 2^31 except skip/splice counts up to 2^40, whose clamp is modelled)",
+        "modelled by hand and compared with the code on every run, not verified directly: lib/sqfs/src/io/{file.c (POSIX branch), ostream.c, istream.c, "
+        "unix.c (seek/truncate), stream_api.c}, lib/util/src/get_line.c, lib/tar/src/record_to_memory.c, lib/xfrm/src/{istream.c, ostream.c} "
+        "(codec abstract, precache loop with explicit fuel), lib/tar/src/iterator.c (member stream, head and fail-exit of it_next incl. "
+        "drain_compressed_stream, the wrapping done by tar_open_stream) and the end-of-archive part of read_header.c",
+        "not modelled: decoding of tar header blocks (geometry is an input, the harness checks that read_header decodes it), which branch "
+        "tar_open_stream takes (tar_probe / xfrm_compressor_id_from_magic: answered by the harness via --wrap, branch taken is compared), "
+        "the real codecs, the layers above sqfs_file_t, stdio inside the tools and libc: exercised only by the tool-level runs",
+        "the list of read/write/pread/pwrite/readv/…/sendfile/copy_file_range/splice call sites is taken from the clang AST of the tree on every run "
+        "and must be exactly the four modelled loops (tools/c12_census.py)",
+        "harness/h_c12*.c, harness/shim_io.c, the generators and monitors in tools/checks/c12.py, tools/c12_tools.py"],
         assumptions=["EINTR occurs only finitely often (structure of the script)",
                      "a regular output file is only appended to, so the descriptor position is the end of the file"])
 
